@@ -255,7 +255,7 @@ def isal_cover_post(results, libinfos, counts):
 
 
 def params_tasks(tier):
-    n = 16 if tier == "quick" else 2000
+    n = 16 if tier == "quick" else 6000
     return [dict(engine="params", variant=v, args=["--prop", "C16", "--from", f, "--count", c]) for v in ("plain", "asan") for (f, c) in split(n if v == "plain" else max(4, n // 4), 8)]
 
 
@@ -540,7 +540,7 @@ CHECKS = {
               "re-armed so the resolver's push/pop ladder runs under the trampoline. The set of ABI-bound symbols is computed from nm of the build (assembly globals referenced from C "
               "or multibinary objects + public API) and a symbol never driven is a harness error. distinct_nontrivial = distinct (function, argument class)"),
         assumptions=TRUST + ["internal kernels reached only from other assembly with private register conventions (e.g. sha256_mb_x8_avx2) are outside the property and are not called directly"],
-        tasks=tramp_tasks("C19", "abi", TRAMP_GROUPS, 160, 4000, extra_fips=True), post=abi_post,
+        tasks=tramp_tasks("C19", "abi", TRAMP_GROUPS, 160, 20000, extra_fips=True), post=abi_post,
     ),
     "C14": dict(
         technique='register/stack trampoline: scan of zmm0-31 and 64 KiB of dead stack for reference-computed secret blocks after every AES call',
@@ -565,7 +565,7 @@ CHECKS = {
               "four routes) plus hashmb histories (all 28 hash families x 3 routes) run under 0x00 / 0xff / random junk in manager and context memory"),
         assumptions=TRUST + ["a dependence on hidden state that happens not to change any observable for the three patterns is missed (valgrind memcheck's uninitialised-value tracking over the base/sse/avx/avx2 hash families, with manager and context memory marked undefined before the API initialises it, covers part of that gap)",
                              "internal assembly entries receive zero-extended 32-bit arguments, as the library's own compiled C passes them"],
-        tasks=lambda tier: tramp_tasks("C20", "hidden", TRAMP_GROUPS, 120, 4000)(tier) + hash_tasks("C20", 300, 20000, 6, extra=["--pair", 1], parts_q=1, parts_t=3)(tier)
+        tasks=lambda tier: tramp_tasks("C20", "hidden", TRAMP_GROUPS, 120, 12000)(tier) + hash_tasks("C20", 300, 20000, 6, extra=["--pair", 1], parts_q=1, parts_t=3)(tier)
         + [dict(engine="hashmb", variant="plain", wrap=["valgrind", "-q", "--error-exitcode=0"], timeout=3000,
                 args=["--prop", "C20", "--alg", alg, "--fam", "base,sse,avx,avx2", "--route", "fam,isal", "--uninit", 1, "--inject", 0, "--from", 0, "--count", 15 if tier == "quick" else 600, "--watchdog", 2900]) for alg in HASH_ALGS],
     ),
